@@ -32,7 +32,8 @@ EXPLANATION = (
     'get_all_subtypes_with_tags(). R5: json_encode/json_decode wrap the json_compat_obj pair with '
     'json.dumps/json.loads only. R6: Struct.__eq__ compares every name of _all_field_names_, '
     'Union.__eq__ tag and value; Attribute.__set__ treats only None on a nullable field as unset. '
-    'Decides this structural part, not value equality.')
+    'Decides this structural part, not value equality.'
+    ' R7/R8 (imported from C08-R2/R3 and C10-R5): a value can only round-trip if the generated validators accept every valid value (bounds inclusive, Nullable delegating, constructors carrying every parameter and the Nullable wrap) and every declared default is emitted (an unset defaulted field otherwise fails to encode).')
 ASSUMPTIONS = [
     'new-style JSON only (old_style and msgpack excluded, as in the property)',
     'class-test atoms on a local refer to its value after the last assignment on the path',
@@ -490,3 +491,9 @@ def run(pm, ctx):
     ctx.check('C04-R6', good, 'encode_struct writes a key exactly for set, non-None fields',
               es_.loc, msg='encode_struct writes keys under a different condition',
               key='C04-R6|%s|omit' % es_.qualname)
+    ctx.import_rules(pm, 'C08', {'C08-R2', 'C08-R3'}, 'C04-R7',
+                     'validators accept every declared-valid value and are generated with every '
+                     'bound and the Nullable wrap (shared with C08-R2/R3)')
+    ctx.import_rules(pm, 'C10', {'C10-R5'}, 'C04-R8',
+                     'every declared default is emitted on the generated attribute (shared with '
+                     'C10-R5)')
